@@ -297,7 +297,7 @@ static int run_sweep(const std::string &dir, int shard, int nshards, int level, 
 //   u8 1 decoder | i8 -1, u8 0 (vertex attribute), u8 0 (depth first) | varint 1 | 0, 5 (int32), 3, 0, varint 0 | u8 1 (integer) | i8 -2 (no prediction), u8 0 (raw),
 //   u8 4 | values
 // Valence traversal (row.mode = "val"): no symbol bit section; start faces first, then 6 x (varint n, EncodeSymbols block) = the context vectors.
-static std::vector<char> assemble_eb(const vrt::J &row) {
+static std::vector<char> assemble_eb(const vrt::J &row, int natt = 1) {
   EncoderBuffer b;
   b.Encode("DRACO", 5);
   b.Encode((uint8_t)2); b.Encode((uint8_t)2); b.Encode((uint8_t)1); b.Encode((uint8_t)1); b.Encode((uint16_t)0);
@@ -346,6 +346,8 @@ static std::vector<char> assemble_eb(const vrt::J &row) {
       if (!ids.empty()) EncodeSymbols(ids.data(), (int)ids.size(), 1, nullptr, &b);
     }
   }
+  // natt = 0: a stream without any attribute decoder -- nothing after the connectivity can refuse what the connectivity decoder accepted
+  if (natt == 0) { b.Encode((uint8_t)0); return std::vector<char>(b.data(), b.data() + b.size()); }
   b.Encode((uint8_t)1);
   b.Encode((int8_t)-1); b.Encode((uint8_t)0); b.Encode((uint8_t)0);
   EncodeVarint<uint32_t>(1, &b);
@@ -358,26 +360,31 @@ static std::vector<char> assemble_eb(const vrt::J &row) {
 
 struct EbStats { long n, agree_rej, emitted; };
 static void probe_eb(const vrt::J &row, long index, EbStats *st) {
-  const std::vector<char> bytes = assemble_eb(row);
-  std::vector<char> buf(bytes);
-  const uint64_t h0 = vrt::fnv1a(buf.data(), buf.size());
-  Decoded d;
-  bool tolerated_bad_alloc = false;
-  try {
-    d = decode(buf.data(), buf.size());
-    if (d.ok) touch_everything(*d.pc, d.is_mesh);
-  } catch (const std::bad_alloc &) { tolerated_bad_alloc = true; } catch (const std::length_error &) { tolerated_bad_alloc = true; }
-  const bool modified = vrt::fnv1a(buf.data(), buf.size()) != h0;
   const std::string &pred = row["out"].s;
-  st->n++;
-  if (!d.ok && !modified && !tolerated_bad_alloc && pred.compare(0, 4, "rej:") == 0) { st->agree_rej++; return; }
-  st->emitted++;
-  std::vector<int> faces;
-  if (d.ok && d.is_mesh) faces = faces_of(*d.mesh());
-  out.begin("EbProbe").i("row", index).s("mode", row["mode"].s == "val" ? "val" : "std").s("s", row["s"].s).i("nv", row["nv"].n).i("nf", row["nf"].n).i("nss", row["nss"].n).s("pred", pred).s("pk", pred.substr(0, pred.find(':'))).i("pred_np", row["np"].n)
-      .arr("pred_faces", row["faces"].ints()).b("ok", d.ok).b("modified", modified).b("bad_alloc", tolerated_bad_alloc)
-      .i("np", d.ok ? (long long)d.pc->num_points() : 0).arr("faces", faces).raw("sv", d.ok ? struct_json(*d.pc, d.is_mesh) : "{\"np\":0,\"nf\":0,\"maxface\":-1,\"atts\":[]}").end();
-  fflush(out.f);
+  // every row twice: with the position attribute (natt = 1) and without any attribute decoder (natt = 0); the header-only rows and the valence
+  // rows that the oracle skipped are probed once
+  for (int natt = 1; natt >= 0; --natt) {
+    const std::vector<char> bytes = assemble_eb(row, natt);
+    std::vector<char> buf(bytes);
+    const uint64_t h0 = vrt::fnv1a(buf.data(), buf.size());
+    Decoded d;
+    bool tolerated_bad_alloc = false;
+    try {
+      d = decode(buf.data(), buf.size());
+      if (d.ok) touch_everything(*d.pc, d.is_mesh);
+    } catch (const std::bad_alloc &) { tolerated_bad_alloc = true; } catch (const std::length_error &) { tolerated_bad_alloc = true; }
+    const bool modified = vrt::fnv1a(buf.data(), buf.size()) != h0;
+    st->n++;
+    if (!d.ok && !modified && !tolerated_bad_alloc && pred.compare(0, 4, "rej:") == 0) { st->agree_rej++; continue; }
+    st->emitted++;
+    std::vector<int> faces;
+    if (d.ok && d.is_mesh) faces = faces_of(*d.mesh());
+    out.begin("EbProbe").i("row", index).s("mode", row["mode"].s == "val" ? "val" : "std").i("natt", natt).s("s", row["s"].s).i("nv", row["nv"].n).i("nf", row["nf"].n).i("nss", row["nss"].n)
+        .s("pred", pred).s("pk", pred.substr(0, pred.find(':'))).i("pred_np", row["np"].n)
+        .arr("pred_faces", row["faces"].ints()).b("ok", d.ok).b("modified", modified).b("bad_alloc", tolerated_bad_alloc)
+        .i("np", d.ok ? (long long)d.pc->num_points() : 0).arr("faces", faces).raw("sv", d.ok ? struct_json(*d.pc, d.is_mesh) : "{\"np\":0,\"nf\":0,\"maxface\":-1,\"atts\":[]}").end();
+    fflush(out.f);
+  }
 }
 
 static std::string first_report(const std::string &errpath, bool *oom) {
